@@ -266,3 +266,83 @@ Proof.
       * intros [H1 H2]. split; [|exact H2].
         destruct (N.eqb_spec i (N.of_nat n)) as [E|E]; [subst; rewrite M in H2; discriminate|lia].
 Qed.
+
+(* ---- the oracle-driven interpreter only follows executions of the semantics ---------------------- *)
+Lemma first_handler_handled P x stk hs oe i oh :
+  match first_handler P hs i with
+  | None => oh = ORaise i
+  | Some h => exec P x (i :: stk) h oh
+  end -> handled P x stk hs oe (ORaise i) oh.
+Proof.
+  induction hs as [|[cs h] hs IH]; simpl; intro H.
+  - subst oh. constructor.
+  - destruct (catches P cs i) eqn:C.
+    + eapply HCaught; eassumption.
+    + apply HSkip; [exact C|apply IH; exact H].
+Qed.
+
+Lemma run_sound P fuel : forall x stk s orc o orc',
+  run P fuel x stk s orc = Some (o, orc') -> exec P x stk s o.
+Proof.
+  induction fuel as [|fuel IH]; intros x stk s orc o orc' H; [discriminate|].
+  destruct s; cbn [run] in H.
+  - inversion H; subst. constructor.
+  - inversion H; subst. constructor.
+  - inversion H; subst. constructor.
+  - destruct (nth_error stk k) eqn:E; [|discriminate]. inversion H; subst. constructor. exact E.
+  - destruct (nth_error (p_funs P) (N.to_nat f)) as [body|] eqn:E; [|discriminate].
+    destruct (run P fuel x [] body orc) as [[o1 orc1]|] eqn:R; [|discriminate].
+    inversion H; subst. unfold out_of_call. eapply ECall; [exact E|eapply IH; exact R].
+  - destruct (run P fuel x stk s1 orc) as [[o1 orc1]|] eqn:R; [|discriminate].
+    destruct o1.
+    + eapply ESeqN; [eapply IH; exact R|eapply IH; exact H].
+    + inversion H; subst. apply ESeqA. eapply IH; exact R.
+    + inversion H; subst. apply ESeqR. eapply IH; exact R.
+  - destruct orc as [|c orc1]; [discriminate|].
+    destruct c; [apply EChoiceL|apply EChoiceR]; eapply IH; exact H.
+  - destruct orc as [|c orc1]; [discriminate|].
+    destruct c.
+    + destruct (run P fuel x stk s orc1) as [[o1 orc2]|] eqn:R; [|discriminate].
+      destruct o1.
+      * eapply ELoopNext; [eapply IH; exact R|reflexivity|eapply IH; exact H].
+      * inversion H; subst. apply ELoopAbrupt. eapply IH; exact R.
+      * inversion H; subst. apply ELoopRaise. eapply IH; exact R.
+    + inversion H; subst. constructor.
+  - destruct (run P fuel x stk s1 orc) as [[ob orc1]|] eqn:Rb; [|discriminate].
+    match type of H with match ?rh with _ => _ end = _ => destruct rh as [[oh orc2]|] eqn:Rh end; [|discriminate].
+    destruct (run P fuel x stk s3 orc2) as [[ofin orc3]|] eqn:Rf; [|discriminate].
+    inversion H; subst.
+    eapply ETry; [eapply IH; exact Rb| |eapply IH; exact Rf].
+    destruct ob.
+    + apply HNormal. eapply IH; exact Rh.
+    + inversion Rh; subst. apply HAbrupt.
+    + apply first_handler_handled.
+      destruct (first_handler P handlers i) as [h|].
+      * eapply IH; exact Rh.
+      * inversion Rh; reflexivity.
+  - apply EIfX. eapply IH; exact H.
+  - apply EWithX. eapply IH; exact H.
+Qed.
+
+(* escapes_sound together with the bound on the site (needed to enumerate the escape set as a list) *)
+Theorem escapes_sound_bounded P nsites T x f i :
+  postfix P nsites T = true ->
+  exec P x [] (Call f) (ORaise i) -> In i (members nsites (escapes P nsites T x f)).
+Proof.
+  intros HP E. destruct (sound_mutual P nsites T HP) as [S _].
+  specialize (S _ _ _ _ E []).
+  assert (K : stack_ok nsites [] []) by (split; constructor).
+  specialize (S K eq_refl). simpl in S. apply members_spec. split; [exact (proj2 S)|exact (proj1 S)].
+Qed.
+
+(* a function whose summary says "cannot complete normally" never returns *)
+Theorem no_normal_return P nsites T x f :
+  postfix P nsites T = true ->
+  (let r := lookup T x f in a_norm r || a_abr r) = false ->
+  ~ exec P x [] (Call f) ONormal.
+Proof.
+  intros HP HN E. destruct (sound_mutual P nsites T HP) as [S _].
+  specialize (S _ _ _ _ E []).
+  assert (K : stack_ok nsites [] []) by (split; constructor).
+  specialize (S K eq_refl). simpl in S. simpl in HN. rewrite S in HN. discriminate.
+Qed.
